@@ -131,7 +131,9 @@ T *tr_assign_##sfx(T *d, size_t n, T c) { \
     } \
     return d; \
 }
+#ifndef TR_CONCRETE
 TR_STUBS(char, char)
+#endif
 TR_STUBS(uint16_t, char16_t)
 TR_STUBS(uint32_t, char32_t)
 TR_STUBS(int32_t, wchar_t)
@@ -167,7 +169,9 @@ int tr_compare_##sfx(const T *a, const T *b, size_t n) { \
     if ((const void *)a == TRC_PROBE) { TRC_HIT = 1; TRC_WIT = w; } \
     return r; \
 }
+#ifndef TR_CONCRETE
 TR_CMP(char, unsigned char, char)
+#endif
 TR_CMP(uint16_t, uint16_t, char16_t)
 TR_CMP(uint32_t, uint32_t, char32_t)
 TR_CMP(int32_t, int32_t, wchar_t)
@@ -178,6 +182,7 @@ const char *TRIM_CHARSET; size_t TRIM_L, TRIM_R;
 _Bool __CPROVER_uninterpreted_member(char c);
 #define IN_SET(c) ((c) != 0 && __CPROVER_uninterpreted_member(c))
 const char *TRF_PROBE; const char *TRF_S, *TRF_RET; size_t TRF_N; char TRF_C; unsigned TRF_CALLS;   /* arguments / result of the last call, for forwarding postconditions */
+#ifndef TR_CONCRETE
 const char *tr_find_char(const char *s, size_t n, char c) {
     __CPROVER_assert(n == 0 || __CPROVER_r_ok(s, n), "tr_find.precondition: range readable for n elements");
     size_t k = nondet_size_t();
@@ -201,6 +206,7 @@ const char *tr_find_char(const char *s, size_t n, char c) {
     TRF_RET = s + k;
     return s + k;
 }
+#endif
 /* length: index of the first 0 (the string must be NUL-terminated inside its object) */
 const void *TRL_S; size_t TRL_RET; unsigned TRL_CALLS;   /* argument / result of the last length() call */
 #define TR_LEN(T, sfx) \
@@ -213,7 +219,19 @@ size_t tr_length_##sfx(const T *s) { \
     TRL_RET = k; \
     return k; \
 }
+#ifndef TR_CONCRETE
 TR_LEN(char, char)
+#endif
+#ifdef TR_CONCRETE
+/* bounded whole-function jobs (real initial states, loops unwound): char_traits<char> as the plain loops memcpy / memmove / memset /
+ * memcmp / memchr / strlen are — exact, so every trace is a real execution.  Never used by a job that is counted as proved. */
+char *tr_copy_char(char *d, const char *s, size_t n) { for (size_t i = 0; i < n; i++) d[i] = s[i]; return d; }
+char *tr_move_char(char *d, const char *s, size_t n) { if (!__CPROVER_same_object(d, s) || __CPROVER_POINTER_OFFSET(d) <= __CPROVER_POINTER_OFFSET(s)) { for (size_t i = 0; i < n; i++) d[i] = s[i]; } else { for (size_t i = n; i > 0; i--) d[i - 1] = s[i - 1]; } return d; }
+char *tr_assign_char(char *d, size_t n, char c) { for (size_t i = 0; i < n; i++) d[i] = c; return d; }
+int tr_compare_char(const char *a, const char *b, size_t n) { for (size_t i = 0; i < n; i++) { if ((unsigned char)a[i] < (unsigned char)b[i]) return -1; if ((unsigned char)a[i] > (unsigned char)b[i]) return 1; } return 0; }
+const char *tr_find_char(const char *s, size_t n, char c) { for (size_t i = 0; i < n; i++) if (s[i] == c) return s + i; return (const char *)0; }
+size_t tr_length_char(const char *s) { size_t k = 0; while (s[k] != 0) k++; return k; }
+#endif
 TR_LEN(uint16_t, char16_t)
 TR_LEN(uint32_t, char32_t)
 TR_LEN(int32_t, wchar_t)
